@@ -202,15 +202,19 @@ def run(tier, seed):
             V.violation({"why": p["why"], "verbs": [c["v"] + " " + c["o"] for c in m["cs"]], "inter": m["inter"]},
                         {"shell": cases[i]["shell"], "input": m["s"], "then": o["out"], "piped": o["piped"]})
     import copy
-    base = next(o for o in obs if o["t"] == "files" and len(o["out"]) >= 3)
-    cor = copy.deepcopy(base)
-    for pair in cor["out"][2]:
-        if pair[0] == "fnr":
-            pair[1] = "9"
-    sb, _ = b3.validate("ReaderObs", [cor, base])
-    st = {"ok": [b[0] for b in sb] == [0]}
+    badset = {idx for idx, _ in bad}
+    base = next((o for k, o in enumerate(obs) if k not in badset and o["t"] == "files" and len(o["out"]) >= 3), None)
+    if base is None:
+        st = {"ok": None, "why": "no conforming observation to corrupt"}
+    else:
+        cor = copy.deepcopy(base)
+        for pair in cor["out"][2]:
+            if pair[0] == "fnr":
+                pair[1] = "9"
+        sb, _ = b3.validate("ReaderObs", [cor, base])
+        st = {"ok": [b[0] for b in sb] == [0]}
     cov["obs_selftest"] = st
-    if not st["ok"]:
+    if st["ok"] is False:
         raise vlib.Inconclusive("observation self-test failed")
     nfiles = sum(1 for m in meta if m["t"] == "files")
     cov["samples"] += [{"argv": (cases[0].get("argv") or [None])[1:], "files": cases[0].get("files"), "out": obs[0]["out"][:3]},
